@@ -97,6 +97,12 @@ def check_steps(d, left, cap):
         require(n <= cap, "C06:non-termination", lambda: "normalize of {} "
                 "yields more than {} steps".format(d, cap))
         specs.well_typed(step, "normalize step")
+        # a rewrite of a diagram of some class is a diagram of that class
+        # (with its methods: eval, normal_form, draw, ...)
+        require(isinstance(step, type(d)) or not type(d).__name__ == "Diagram",
+                "C06:step-of-another-class", lambda: "{} step of a {}.{}"
+                .format(type(step).__module__, type(d).__module__,
+                        type(d).__name__))
         a, b = arity_list(prev), arity_list(step)
         pb, sb = prev.boxes, step.boxes
         diff = [i for i in range(len(pb)) if pb[i] is not sb[i]]
@@ -139,6 +145,10 @@ def nf_checks(spec, left, interp, via_subs=False):
         raise Violation("C06:non-termination", "normal_form of {} takes more "
                         "than {} steps".format(d, cap))
     specs.well_typed(nf, "normal form")
+    require(isinstance(nf, type(d)) or not type(d).__name__ == "Diagram",
+            "C06:step-of-another-class", lambda: "{} normal form of a {}.{}"
+            .format(type(nf).__module__, type(d).__module__,
+                    type(d).__name__))
     require(nf == last and specs.dkey(nf) == specs.dkey(last),
             "C06:normal_form-vs-last-step", lambda: "{} vs {}".format(
                 nf, last))
